@@ -139,7 +139,8 @@ def eval_sub(spec, s):
             o = level(i - 1)
             if o.kind != "val":
                 return o  # failures (and unknown) pass through
-            st["work"] += (L.get("after", 1)) * (L.get("ret") or L.get("interval", 5.0))
+            # first sighting at registration (immediate poll), one interval per further sighting
+            st["work"] += (L.get("after", 1) - 1) * (L.get("ret") or L.get("interval", 5.0))
             if beh(L, "out", o.value) == "exc":
                 return Outcome("exc", tag=("poll", li, o.value), cls="ScriptedError")
             return Outcome("val", value=("p", li, o.value))
